@@ -9,6 +9,7 @@ mod s_heap;
 mod s_hll;
 mod s_lossy;
 mod s_res;
+mod s_td;
 
 use rec::{RecBuild, ScriptRng};
 use std::collections::HashMap;
@@ -55,6 +56,10 @@ pub trait Driver {
     fn touched(&self, op: &[String]) -> Vec<usize>;
     /// constructor op text that rebuilds instance `i` from scratch (for the clear-vs-fresh pass)
     fn ctor(&self, i: usize) -> Option<Vec<String>>;
+    /// additional transcript lines for the case (scale-function logs etc.)
+    fn extra_lines(&self) -> Vec<String> {
+        vec![]
+    }
 }
 
 fn make_driver(st: &str, cfg: &HashMap<String, String>) -> Box<dyn Driver> {
@@ -73,6 +78,7 @@ fn make_driver(st: &str, cfg: &HashMap<String, String>) -> Box<dyn Driver> {
         "res" => Box::new(s_res::D::default()),
         "lossy" => Box::new(s_lossy::D::default()),
         "heap" => Box::new(s_heap::D::default()),
+        "td" => Box::new(s_td::D::default()),
         _ => panic!("unknown structure {}", st),
     }
 }
@@ -121,6 +127,7 @@ fn read_cases(path: &str) -> Vec<Case> {
 
 struct Pass {
     results: Vec<(Vec<String>, Vec<u64>)>, // result tokens, rng words
+    extra: Vec<String>,
     oracle: Vec<String>,
     hlog: Vec<(Option<u64>, Option<u64>, u64)>,
 }
@@ -192,7 +199,8 @@ fn run_pass(case: &Case, mode_fresh: bool) -> Pass {
         }
     }
     let hlog = ctx.bh.log.borrow().iter().cloned().collect();
-    Pass { results, oracle: ctx.oracle, hlog }
+    let extra = catch_unwind(AssertUnwindSafe(|| d.extra_lines())).unwrap_or_default();
+    Pass { results, extra, oracle: ctx.oracle, hlog }
 }
 
 fn main() {
@@ -217,6 +225,9 @@ fn main() {
             writeln!(out, "O {} => {}{}", op.join(" "), res.join(" "), w).unwrap();
         }
         for x in &a.oracle {
+            writeln!(out, "{}", x).unwrap();
+        }
+        for x in &a.extra {
             writeln!(out, "{}", x).unwrap();
         }
         // C19 oracle: a second pass in which every clear() is replaced by building a fresh instance
